@@ -59,6 +59,16 @@ Theorem C10_no_self_in_path : forall (local : N) (srt : sorter), sorter_ok srt -
 Proof. exact no_self_path_over_histories. Qed.
 Print Assumptions C10_no_self_in_path.
 
+(** ... and the AddRoute of each table rejects such a route outright,
+    leaving the table unchanged. *)
+Theorem C10_self_path_rejected : forall (srt : sorter) (local now : N) (path : list N), In local path ->
+  (forall t raw nh o m s, cidr_add srt local now t raw nh o m s path = (t, false)) /\
+  (forall e w pat nh o m s, domain_add srt local now e w pat nh o m s path = (e, w, false)) /\
+  (forall t k tg nh o m s, fwd_add srt local now t k tg nh o m s path = (t, false)) /\
+  (forall t a nh o m s, agent_add srt local now t a nh o m s path = (t, false)).
+Proof. exact self_path_rejected. Qed.
+Print Assumptions C10_self_path_rejected.
+
 (** Rule 3 (peer disconnect): each of the four disconnect operations filters
     every bucket of its table in place, keeping exactly the routes whose next
     hop is not the peer (order preserved), and leaves the other tables
